@@ -33,8 +33,17 @@ PLANS = {
     "C13": q("C13"),
 }
 
-WORLD_BIN = {"queue": "world"}
-SELFTEST_WORLDS = [("queue", "ALL"), ("queue", "C08"), ("queue", "C05")]
+REAL_L = ["nsqlookupd (New/Main/Exit): TCP protocol V1, HTTP API, registration DB", "internal/protocol, internal/http_api", "net/http server"]
+
+def lk(prop, rule, quick=30, thorough=600):
+    return dict(stages=[dict(bin="world", world="lookupd", prop=prop, share=1.0)], quick_s=quick, thorough_s=thorough, level="exploration",
+                rule=rule, components=dict(real=REAL_L, stub=STUB_Q + ["raw V1 producer connections"]), assumptions=ASSUME, crash_property="C15")
+
+PLANS["C14"] = lk("C14", "each evaluation is one seeded run of the lookupd world: 1-4 producer connections (IDENTIFY/REGISTER/UNREGISTER/PING/close/reset), HTTP admin calls, clock advances across inactivity and tombstone thresholds; after every step /lookup, /topics, /channels, /nodes are compared with a plain registry model; distinct = distinct schedule fingerprint; non-trivial = at least 5 operations with reads checked")
+PLANS["C15"] = lk("C15", "each evaluation is one seeded run of the lookupd world with hostile TCP byte streams (wrong magic, every IDENTIFY length incl. negative/huge, malformed JSON, commands before IDENTIFY, bad names, garbage) and hostile HTTP requests (route x method x argument combinations) interleaved with well-behaved bystander producers whose registrations are re-read after every step; distinct = distinct schedule fingerprint")
+
+WORLD_BIN = {"queue": "world", "lookupd": "world"}
+SELFTEST_WORLDS = [("queue", "ALL"), ("queue", "C08"), ("queue", "C05"), ("lookupd", "C14"), ("lookupd", "C15")]
 ALL_TARGETS = ["world"]
 
 SIMNOTE = ("assumes the trusted base of DESIGN.md 6: Go 1.26.8 synctest + five runtime patches, the two-rule AST rewriter, simnet/simos fidelity, "
@@ -55,10 +64,13 @@ MANIFEST_TEXT = {
  "C13": mt("seeded search with /stats snapshots (JSON, text, filters) at quiescent points; oracle: conservation law per channel against the ledger, topic counters vs. acknowledged publishes, per-consumer counts, no negative count, renderings agree.", "DESIGN.md 3 C13", "deterministic simulation: conservation laws vs. ledger"),
 }
 
+MANIFEST_TEXT["C14"] = mt("seeded search over producer/admin histories and clock advances against the real nsqlookupd; oracle: after every step every read endpoint equals a plain registry model (producers = connected, recently pinged, registered, not tombstoned); concurrent bursts use commuting operations so the expected state is unambiguous.", "DESIGN.md 3 C14", "deterministic simulation: refinement of a registry model")
+MANIFEST_TEXT["C15"] = mt("seeded search over hostile TCP byte streams and HTTP requests against the real nsqlookupd with bystander producers; oracle: process stays up (a panic is attributed through the write-ahead seed log), keeps answering, bystander registrations intact, documented error codes, no HTTP 5xx.", "DESIGN.md 3 C15", "deterministic simulation: hostile-input robustness with bystander oracle")
+
 NOT_APPLICABLE = {
  "C06": "not yet built in this session (planned: fault enumeration over simos crash points)",
  "C09": "not yet built in this session", "C10": "not yet built in this session", "C11": "not yet built in this session",
- "C14": "not yet built in this session", "C15": "not yet built in this session", "C16": "not yet built in this session",
+ "C16": "not yet built in this session",
  "C17": "not yet built in this session", "C18": "not yet built in this session", "C19": "not yet built in this session",
  "C20": "not yet built in this session",
 }
